@@ -181,3 +181,45 @@ func VfC03_TableFill() {
 	probe(hi, "10.0.9.9:7000", "10.0.1.7:7000")
 	nd.Cover("three-rounds")
 }
+
+// VfC03_RouteDuringRefresh: a keyed request is routed while a slots refresh that confirms the
+// current layout is rewriting the table (the refresh loop and the sessions run concurrently, the
+// table is an ordinary array). Whatever the interleaving of the lookup with the table's rewrite,
+// the request goes to the owner of its slot: on a stable cluster a refresh is invisible.
+func VfC03_RouteDuringRefresh() {
+	seed := "10.0.0.1:7000"
+	owner := "10.0.1.1:7000"
+	u, clients := vfNewUpstream(nil, seed)
+	key := "k1"
+	slot := vfSlotOf(key)
+	text := "idA " + owner + "@17000 myself,master - 0 0 1 connected " + itoa(int64(slot)) + "\n" +
+		"idB 10.0.1.3:7000@17000 master - 0 0 2 connected " + itoa(int64((slot+1)%slotNum)) + "\n"
+	u.slots[slot] = &instance{Addr: owner} // the table is loaded, the layout does not change
+	nd.PanicLabel("route-during-refresh")
+	done := make(chan error, 1)
+	go func() { done <- u.doSlotsRefresh() }()
+	nd.Quiesce()
+	rq := vfTake(clients[seed])
+	if rq == nil {
+		nd.Assert(false, "the refresh asks a seed host")
+		return
+	}
+	nd.Watch(u) // from here on the refresh's stores into the table and the lookup's load may interleave
+	var addr string
+	var err error
+	routed := false
+	rq.SetResponse(newBulkString(text))
+	go func() {
+		addr, err = u.chooseHost([]byte(key), newSimpleRequest(newStringArray("set", key, "v")))
+		routed = true
+	}()
+	nd.Quiesce()
+	nd.Assert(routed && err == nil && addr == owner, "a request routed while a refresh confirms the layout goes to the owner of its slot (the table is never seen half rewritten)")
+	select {
+	case e := <-done:
+		nd.Assert(e == nil, "the refresh succeeds")
+		nd.Cover("refreshed-while-routing")
+	default:
+		nd.Assert(false, "the refresh returns")
+	}
+}
